@@ -10,7 +10,11 @@ type vShareModel struct {
 	upLive       bool // the upstream subscription is live
 	term         int  // terminal kept by a subject that was not reset (0 none)
 	upSubs       int
+	cur          int // number of the current upstream execution
 	subs         []*vModelSub
+	conn         []int // per subscriber: the execution it joined
+	armed        int   // the next upstream execution terminates synchronously inside its subscribe
+	connBy       []int // per upstream execution: the subscriber whose subscription started it
 }
 
 func (m *vShareModel) active() int {
@@ -23,14 +27,39 @@ func (m *vShareModel) active() int {
 	return n
 }
 
-func (m *vShareModel) subscribe() {
-	s := &vModelSub{}
+func (m *vShareModel) resets(kind int) bool {
+	return (kind == vkError && m.resetErr) || (kind == vkComplete && m.resetComp)
+}
+
+// reentrantNoReset: a terminal that does not reset would be delivered to a subscriber that
+// subscribes again from inside the callback.  That subscription goes to the very subject that is
+// delivering (subjects deliver under their lock), which is re-entrant use of a subject: outside
+// C11 and C10, kept out of the explored sequences (DESIGN §10).
+func (m *vShareModel) reentrantNoReset(kind int) bool {
+	if m.resets(kind) {
+		return false
+	}
+	for i, s := range m.subs {
+		if s.active && s.resub && m.conn[i] == m.cur {
+			return true
+		}
+	}
+	return false
+}
+
+func (m *vShareModel) subscribe(resub bool) {
+	s := &vModelSub{resub: resub}
 	m.subs = append(m.subs, s)
+	m.conn = append(m.conn, m.cur)
 	if m.term != 0 {
 		if m.term == vkComplete {
 			s.want = append(s.want, vC())
 		} else {
 			s.want = append(s.want, vE(vErrA))
+		}
+		if s.resub {
+			s.resub = false
+			m.subscribe(false)
 		}
 		return
 	}
@@ -39,6 +68,14 @@ func (m *vShareModel) subscribe() {
 		m.connected = true
 		m.upLive = true
 		m.upSubs++
+		m.cur++
+		m.conn[len(m.conn)-1] = m.cur
+		m.connBy = append(m.connBy, len(m.subs)-1)
+		if m.armed != 0 {
+			k := m.armed
+			m.armed = 0
+			m.terminate(k)
+		}
 	}
 }
 
@@ -54,30 +91,38 @@ func (m *vShareModel) unsubscribe(i int) {
 }
 
 func (m *vShareModel) next(v int64) {
-	for _, s := range m.subs {
-		if s.active {
+	for i, s := range m.subs {
+		if s.active && m.conn[i] == m.cur {
 			s.want = append(s.want, vN(v))
 		}
 	}
 }
 
 func (m *vShareModel) terminate(kind int) {
-	for _, s := range m.subs {
-		if s.active {
+	// the reset (or the decision to keep the terminal) comes first: a subscriber that subscribes
+	// again from inside its terminal callback already meets the new state
+	conn := m.cur
+	m.upLive = false
+	if m.resets(kind) {
+		m.connected = false
+	} else {
+		m.term = kind
+	}
+	n := len(m.subs)
+	for i := 0; i < n; i++ {
+		s := m.subs[i]
+		if s.active && m.conn[i] == conn {
 			if kind == vkComplete {
 				s.want = append(s.want, vC())
 			} else {
 				s.want = append(s.want, vE(vErrA))
 			}
 			s.active = false
+			if s.resub {
+				s.resub = false
+				m.subscribe(false)
+			}
 		}
-	}
-	m.upLive = false
-	reset := (kind == vkError && m.resetErr) || (kind == vkComplete && m.resetComp)
-	if reset {
-		m.connected = false
-	} else {
-		m.term = kind
 	}
 }
 
@@ -95,16 +140,58 @@ func vC11Share(K int) {
 	}
 	var recs []*vRecorder
 	var subs []Subscription
+	armedOnce, resubOnce := false, false
+	// every subscription carries its own marker in its context: the upstream execution must be
+	// subscribed with the context of the subscriber that started it (C09)
+	subscribe := func() {
+		rec := &vRecorder{name: "s" + vItoa(len(recs))}
+		ctx := context.WithValue(context.Background(), vKeySub, int64(100+len(recs)))
+		recs = append(recs, rec)
+		subs = append(subs, nil)
+		k := len(subs) - 1
+		s := shared.SubscribeWithContext(ctx, vObs(rec, vFlatInt))
+		subs[k] = s
+	}
 	for step := 0; step < K; step++ {
-		switch vChoice("op"+vItoa(step), 5) {
+		switch vChoice("op"+vItoa(step), 7) {
 		case 0: // subscribe
 			if len(recs) >= 3 {
 				vAssume(false)
 			}
+			subscribe()
+			m.subscribe(false)
+		case 5: // the next upstream execution terminates synchronously, inside its subscribe call
+			if armedOnce {
+				vAssume(false)
+			}
+			armedOnce = true
+			m.armed = vkComplete
+			if vChoice("armk", 2) == 1 {
+				m.armed = vkError
+			}
+			p.syncTerm = m.armed
+			continue
+		case 6: // a subscriber that subscribes again from inside its terminal callback
+			if resubOnce || len(recs) >= 2 {
+				vAssume(false)
+			}
+			resubOnce = true
 			rec := &vRecorder{name: "s" + vItoa(len(recs))}
+			rec.hook = func(r *vRecorder, kind int, idx int) {
+				if kind != vkNext {
+					subscribe()
+				}
+			}
+			if m.term != 0 || (m.armed != 0 && !m.connected && !m.resets(m.armed)) {
+				vAssume(false) // re-entrant use of a subject (see reentrantNoReset)
+			}
+			ctx := context.WithValue(context.Background(), vKeySub, int64(100+len(recs)))
 			recs = append(recs, rec)
-			subs = append(subs, shared.SubscribeWithContext(context.Background(), vObs(rec, vFlatInt)))
-			m.subscribe()
+			subs = append(subs, nil)
+			k := len(subs) - 1
+			s := shared.SubscribeWithContext(ctx, vObs(rec, vFlatInt))
+			subs[k] = s
+			m.subscribe(true)
 		case 1: // unsubscribe
 			if len(subs) == 0 {
 				vAssume(false)
@@ -123,10 +210,16 @@ func vC11Share(K int) {
 			if p.live == 0 {
 				vAssume(false)
 			}
+			if m.reentrantNoReset(vkError) {
+				vAssume(false)
+			}
 			p.emit(vStep{kind: vkError})
 			m.terminate(vkError)
 		default:
 			if p.live == 0 {
+				vAssume(false)
+			}
+			if m.reentrantNoReset(vkComplete) {
 				vAssume(false)
 			}
 			p.emit(vStep{kind: vkComplete})
@@ -135,6 +228,12 @@ func vC11Share(K int) {
 		vAssert(p.live <= 1, "Share: more than one live subscription to the source")
 		vAssert((p.live == 1) == m.upLive, "Share: the upstream subscription does not follow the reference count")
 		vAssert(p.subs == m.upSubs, "Share: the source was (re)subscribed a different number of times than the reset options prescribe")
+	}
+	for e, by := range m.connBy {
+		if e < len(p.ctxs) {
+			got, _ := p.ctxs[e].Value(vKeySub).(int64)
+			vAssert(got == int64(100+by), "Share: the source was subscribed with a context other than that of the subscriber that started the execution")
+		}
 	}
 	for i, rec := range recs {
 		vCheckGrammar("Share", rec)
